@@ -44,7 +44,8 @@ NOT_DECIDED = (
     "division by a zero norm in make_unit_vector, overflow); the expected number of iterations of "
     "rejection loops and their termination (assumed: probability one); the value of Poisson-distributed "
     "trip counts; callers of from_spherical other than IsotropicDistribution (|costheta| <= 1 there is a "
-    "debug assertion only, see C04.9 / C20.4); Selector: that `total` equals the sum of the weights")
+    "debug assertion only, see C04.9 / C20.4); Selector: that `total` equals the sum of the weights and "
+    "that it is built with size >= 1 (debug assertions only)")
 TECHNIQUE = (
     "CFG edge-guard / definition rules on every Selector instantiation; exact polynomial abstract "
     "interpretation (A6 + quadratic relations for sqrt, sin, cos; nested interpretation of member "
@@ -179,13 +180,6 @@ def _iter_defs(f, v):
     return [(b, i, e) for (b, i, e) in f.events("def") if e.get("var") == v]
 
 
-def _reach_after(f, b, i, blocked):
-    """blocks reachable from just after event (b, i) without entering a blocked block; the flag says
-    whether b itself can be re-entered"""
-    r = f.reach([s for s in f.succ(b)], blocked_blocks=blocked)
-    return r
-
-
 def selector_site_ok(f, pos, path):
     """is X (dereferenced at pos) in [0, last_] there?"""
     if _is_last_path(path):
@@ -309,7 +303,8 @@ def selector_rules(db, cx):
         if src is None or src not in prm:
             problems.append("last_ is not initialised from a constructor parameter (`%s`)"
                             % (inits[0][2].get("rhs") if inits else "no initialiser"))
-        elif T and prm[src].get("cty", "").replace("const ", "") != _canon(db, T, prm[src]):
+        elif not (prm[src].get("ty", "").endswith("::value_type")
+                  or T in (prm[src].get("cty", ""), prm[src].get("ty", ""))):
             problems.append("last_ is initialised from `%s` of type %s, not the size (type %s)"
                             % (src, prm[src].get("cty"), T))
         if len(decs) != 1:
@@ -352,12 +347,6 @@ def _lockey(loc):
         return (p_[0], int(p_[1]), int(p_[2]))
     except (IndexError, ValueError):
         return (loc, 0, 0)
-
-
-def _canon(db, T, prm):
-    """canonical spelling of the selector's value type as the extractor prints parameter types"""
-    return prm.get("cty", "").replace("const ", "") if T in (prm.get("cty", ""), prm.get("ty", "")) or \
-        prm.get("ty", "").endswith("::value_type") else T
 
 
 def _sel_tag(cls):
@@ -1039,7 +1028,7 @@ def classify_loop(f, di, rng, h, latches, body):
         info.update(kind="violation", detail="the loop draws random numbers and has no conditional exit")
         return info
     # ---- counted loop: one exit test `v <op> bound`, v stepped by ++/-- only, bound invariant
-    cnt = _counted(f, body, exits)
+    cnt = _counted(f, body, exits, h, latches)
     if cnt is not None:
         info.update(cnt)
         return info
@@ -1166,13 +1155,20 @@ def _lit_of(f, body, name, depth=0):
     return None
 
 
-def _counted(f, body, exits):
+def _counted(f, body, exits, h=None, latches=()):
     if len(exits) != 1:
         return None
-    c = f.blocks[exits[0]]["cond"]
-    if c.get("op") not in ("<", "<=", ">", ">=", "!=") or c.get("neg"):
-        if not (c.get("op") == "==" and c.get("neg")):
-            return None
+    blk = f.blocks[exits[0]]
+    c = blk["cond"]
+    comp = {"<": ">=", "<=": ">", ">": "<=", ">=": "<", "!=": "==", "==": "!="}
+    core = c.get("op")
+    if core not in comp:
+        return None
+    # the relation that holds while the loop continues
+    stay_true = blk["succ"][f.cond_polarity_edge(exits[0], True)] in body
+    op = core if stay_true else comp[core]
+    if op == "==":
+        return None
     if "allrefs" in c and set(c["allrefs"]) != set(c.get("refs", [])):
         return None                      # a compound condition: not a plain counting test
     allowed_calls = {C + "detail::range_iter::operator!=", C + "detail::range_iter::operator=="}
@@ -1180,7 +1176,6 @@ def _counted(f, body, exits):
         return None
     l, r = _locals(c.get("lrefs")), _locals(c.get("rrefs"))
     lall, rall = c.get("lrefs") or [], c.get("rrefs") or []
-    op = c["op"] if not c.get("neg") else {"==": "!="}.get(c["op"])
     flip = {"<": ">", "<=": ">=", ">": "<", ">=": "<=", "!=": "!="}
     for var_side, other, other_all, o in ((l, r, rall, op), (r, l, lall, flip.get(op))):
         if len(var_side) != 1 or (var_side is l and len(lall) != 1) or (var_side is r and len(rall) != 1):
@@ -1207,8 +1202,14 @@ def _counted(f, body, exits):
                 inv = False
         if not inv:
             continue
-        # exactly one step per iteration: the step is not inside a nested branch of the body that
-        # can be skipped (a skipped step makes the trip count depend on what happens in the body)
+        # a step on every iteration: no path from the loop header back to it avoids the step (a
+        # skipped step makes the trip count depend on what happens in the body)
+        stepped = set(b_ for (b_, _i, _e) in ds)
+        if h is not None and h not in stepped:
+            r_ = f.reach([s_ for s_ in f.succ(h) if s_ in body],
+                         blocked_blocks=list(stepped | (set(f.blocks) - set(body)) | {h}))
+            if any(lt in r_ for lt in latches):
+                continue
         start = _lit_of(f, body, v)
         bound = None
         lit = c.get("rlit") if var_side is l else c.get("llit")
